@@ -884,7 +884,8 @@ def propagate_new_constants(tree: ast.Module, modname: str) -> int:
             for x in tg:
                 if isinstance(x, ast.Name):
                     lv = _literal_value(st.value)
-                    if lv is not None and isinstance(lv, ast.Tuple) and f"={cls.name}.{x.id}" not in known and x.id not in attr_stores:
+                    scalar = isinstance(lv, ast.Constant) and isinstance(lv.value, (int, float, str, bytes)) and not isinstance(lv.value, bool)
+                    if lv is not None and (isinstance(lv, ast.Tuple) or scalar) and f"={cls.name}.{x.id}" not in known and x.id not in attr_stores:
                         consts[x.id] = lv
         if not consts:
             continue
@@ -944,5 +945,76 @@ def expand_new_properties(trees: Dict[str, ast.Module]) -> List[str]:
 
     for t in trees.values():
         P().visit(t)
+        ast.fix_missing_locations(t)
+    return sorted(set(done))
+
+
+def expand_new_expression_methods(trees: Dict[str, ast.Module]) -> List[str]:
+    """`ds.selects(msg)` where `selects` is a method added after the rules were written, whose whole body is
+    `return <expr>`, and whose name is unique among the program's methods: replaced by the expression with self := ds
+    and the parameters bound (receivers other than self - calls on self are handled per module by the Expander)."""
+    kf = known_functions()
+    if not kf:
+        return []
+    cands: Dict[str, List[ast.FunctionDef]] = {}
+    counts: Dict[str, int] = {}
+    for mod, t in trees.items():
+        known = kf.get(mod, set())
+        for cls in [c for c in ast.walk(t) if isinstance(c, ast.ClassDef)]:
+            for m in cls.body:
+                if isinstance(m, ast.FunctionDef):
+                    counts[m.name] = counts.get(m.name, 0) + 1
+                    if f"{cls.name}.{m.name}" in known or m.decorator_list or m.args.vararg or m.args.kwarg or not m.args.args:
+                        continue
+                    body = [b for b in m.body if not (isinstance(b, ast.Expr) and isinstance(b.value, ast.Constant) and isinstance(b.value.value, str))]
+                    if len(body) == 1 and isinstance(body[0], ast.Return) and body[0].value is not None:
+                        cands.setdefault(m.name, []).append(m)
+    usable = {k: v[0] for k, v in cands.items() if len(v) == 1 and counts.get(k) == 1}
+    if not usable:
+        return []
+    done = []
+
+    class M(ast.NodeTransformer):
+        def visit_Call(self, n):
+            self.generic_visit(n)
+            if not (isinstance(n.func, ast.Attribute) and n.func.attr in usable and not (isinstance(n.func.value, ast.Name) and n.func.value.id == "self")):
+                return n
+            d = usable[n.func.attr]
+            if n.keywords and any(k.arg is None for k in n.keywords) or any(isinstance(a, ast.Starred) for a in n.args):
+                return n
+            params = [a.arg for a in d.args.args]
+            actual = {params[0]: n.func.value}
+            if len(n.args) > len(params) - 1:
+                return n
+            for p_, v_ in zip(params[1:], n.args):
+                actual[p_] = v_
+            for k in n.keywords:
+                if k.arg not in params[1:] or k.arg in actual:
+                    return n
+                actual[k.arg] = k.value
+            defaults = dict(zip(params[len(params) - len(d.args.defaults):], d.args.defaults))
+            for p_ in params[1:]:
+                if p_ not in actual:
+                    if p_ not in defaults:
+                        return n
+                    actual[p_] = defaults[p_]
+            expr = copy.deepcopy([b for b in d.body if isinstance(b, ast.Return)][0].value)
+            loads: Dict[str, int] = {}
+            for x in ast.walk(expr):
+                if isinstance(x, ast.Name) and isinstance(x.ctx, ast.Load):
+                    loads[x.id] = loads.get(x.id, 0) + 1
+            inner = {x.id for x in ast.walk(expr) if isinstance(x, ast.Name) and isinstance(x.ctx, ast.Store)}
+            free = {x.id for x in ast.walk(expr) if isinstance(x, ast.Name)} - set(params) - inner
+            # free names of the expression are resolved in the method's module: only builtins / none are safe to move
+            if free - {"len", "int", "str", "bool", "min", "max", "sum", "any", "all", "isinstance", "getattr", "True", "False", "None"}:
+                return n
+            for p_, v_ in actual.items():
+                if p_ in inner or not (_pure(v_) or (_simple(v_) and loads.get(p_, 0) <= 1)):
+                    return n
+            done.append(n.func.attr)
+            return ast.copy_location(_Rename({}, actual).visit(expr), n)
+
+    for t in trees.values():
+        M().visit(t)
         ast.fix_missing_locations(t)
     return sorted(set(done))
